@@ -1,7 +1,7 @@
 (* C19: proofs about the model fragments REGENERATED from analyzer/analyzer.go on this run (Gen_Adapter.v). *)
 From Coq Require Import List ZArith Lia Bool.
 From RG.Base Require Import Outcome GoSlice.
-From RG.Adapter Require Import Str Model Conc NewEngine.
+From RG.Adapter Require Import Str Model Conc NewEngine Alias.
 From RGW Require Import Gen_Adapter.
 Import ListNotations.
 Local Open Scope Z_scope.
@@ -144,3 +144,16 @@ Proof. exists gen_e_head, gen_e_tail. split; [reflexivity|]. split; vm_compute; 
 (* ---- what the engine is run with *)
 Lemma gen_run_context_ok : run_context_ok gen_run_context = true.
 Proof. vm_compute. reflexivity. Qed.
+
+(* ---- what a driver reads after the pass: either the adapter copies the bytes it keeps, or no site of the engine hands out
+   anything but a fresh buffer *)
+Lemma gen_texts_condition : keeps_copy gen_adapter_keeps || forallb site_is_fresh gen_replacement_sites = true.
+Proof. vm_compute. reflexivity. Qed.
+
+Lemma gen_replacement_sites_nonempty : gen_replacement_sites <> [].
+Proof. discriminate. Qed.
+
+Lemma gen_text_edits_stable m0 ps :
+  Forall (produced_by gen_replacement_sites) ps ->
+  read_late (al_run gen_adapter_keeps m0 ps) = reported (al_run gen_adapter_keeps m0 ps).
+Proof. apply texts_stable_sites; [exact gen_replacement_sites_nonempty|exact gen_texts_condition]. Qed.
